@@ -554,17 +554,24 @@ class Interp:
             self.track_world(val)
         return cache[key]
 
-    def dict_key(self, k):
-        """A key of a Python dict / set as Python hashes it: an abstract number (or a tuple holding one) is replaced by its
-        stand-in (equal symbolic values are one key), everything else is itself."""
+    def dict_key(self, k, container=None):
+        """The key of a Python dict / set as Python finds it: an abstract number or an object of the package (or a tuple holding
+        one) is looked for among the keys already there by what Python compares (equal symbolic values; dataclass fields; the
+        object's own __eq__) - the key found is returned, else the key itself (which is what gets stored)."""
         def has_abstract(x):
-            return isinstance(x, SVar) or (isinstance(x, tuple) and any(has_abstract(y) for y in x))
-        if not has_abstract(k):
+            return isinstance(x, SVar | SObj | EnumMember) or (isinstance(x, tuple) and any(has_abstract(y) for y in x))
+        if container is None or not has_abstract(k):
             return k
         try:
-            return self.memo_key(k)
+            want = self.memo_key(k)
+            for existing in list(container):
+                if existing is k:
+                    return existing
+                if has_abstract(existing) and self.memo_key(existing) == want:
+                    return existing
         except _NoKey:
-            return k
+            pass
+        return k
 
     def memo_key(self, v):
         """A Python-hashable stand-in for an argument of a memoised function: equal stand-ins iff Python would find the arguments
@@ -573,6 +580,8 @@ class Interp:
             return v
         if isinstance(v, tuple):
             return tuple(self.memo_key(x) for x in v)
+        if type(v).__module__ in ('pathlib', 'datetime', 'fractions', 'decimal', 'uuid'):
+            return v  # concrete values of the standard library compare and hash as in Python
         if isinstance(v, FuncRef):
             return ('function', v.fi.fq, id(v.bound) if v.bound is not None else None)
         if isinstance(v, ClassRef):
@@ -859,7 +868,7 @@ class Interp:
             obj = self.eval(t.value, env, mi)
             key = self.eval(t.slice, env, mi)
             if isinstance(obj, dict) and not isinstance(key, Opaque):
-                key = self.dict_key(key)
+                key = self.dict_key(key, obj)
             if isinstance(obj, dict | list) and not isinstance(key, Opaque | SVar):
                 try:
                     obj[key] = val
@@ -1660,9 +1669,9 @@ class Interp:
             if isinstance(fn.obj, str | bytes) and any(isinstance(a, list | tuple) and any(isinstance(x, Opaque | SVar | SObj) for x in a) for a in args):
                 return Opaque(f'{fn.name}(sequence with ⊤)')  # e.g. ', '.join of formatted abstract values
             if isinstance(fn.obj, dict) and fn.name in ('get', 'pop', 'setdefault', '__getitem__', '__contains__', '__setitem__') and args:
-                args = [self.dict_key(args[0]), *args[1:]]
+                args = [self.dict_key(args[0], fn.obj), *args[1:]]
             elif isinstance(fn.obj, set) and fn.name in ('add', 'discard', 'remove', '__contains__') and args:
-                args = [self.dict_key(args[0]), *args[1:]]
+                args = [self.dict_key(args[0], fn.obj), *args[1:]]
             if isinstance(fn.obj, list | dict | set) and fn.name in _MUTATING_METHODS:
                 self.note_store(fn.obj, *args, *kwargs.values())
             try:
@@ -1848,7 +1857,7 @@ class Interp:
             if isinstance(b, Opaque) or isinstance(a, Opaque):
                 return Opaque('in on ⊤')
             if isinstance(b, dict | set | frozenset) and not isinstance(a, Opaque):
-                a = self.dict_key(a)
+                a = self.dict_key(a, b)
             if isinstance(b, SVar | SObj) or isinstance(a, SVar):
                 return Opaque('in on abstract value')
             try:
@@ -1957,7 +1966,7 @@ class Interp:
         if hasattr(obj, 'vp_index'):
             return obj.vp_index(key)  # an object provided by a model: it knows how to be indexed by abstract keys
         if isinstance(obj, dict) and not isinstance(key, Opaque):
-            key = self.dict_key(key)
+            key = self.dict_key(key, obj)
         if isinstance(key, Opaque | SVar):
             return Opaque('⊤ index')
         if obj is None:
